@@ -84,11 +84,35 @@ def step (_ : Unit) (kind : String) (args impl : List String) : Option (Unit × 
           if it key ≠ want then
             some s!"side=impl key={if key = "repo" then "getrepo-mismatch" else "component-mismatch"} {k} path {t}: {key} is {it key}, built from {want}"
           else none
-    let br := match parsePath path with
+    -- layout monitors: the registry layout itself (not the regexps) judges the implementation's classification
+    let lk := layoutKinds path
+    let lkToks := lk.map fun (ty, st) => "ok:" ++ ptypeTok ty ++ ":" ++ S st
+    let ip := it "parse"
+    let layoutPf : List String :=
+      if ip.startsWith "ok:" ∧ ¬ lkToks.contains ip then
+        (if lk.isEmpty then
+          let kindOf := ((ip.drop 3).toString.splitOn ":").headD ""
+          [s!"side=impl key=accepted-non-layout-{kindOf.replace "_" ""} path {t} is no instance of a layout entry, ParsePath gave {ip}"]
+         else [s!"side=impl key=misclassified-layout-path path {t} is {lkToks}, ParsePath gave {ip}"])
+      else if ip = "err" ∧ ¬ lk.isEmpty then [s!"side=impl key=layout-path-rejected path {t} is {lkToks}, ParsePath rejected it"]
+      else []
+    -- GetRepo: what it returns must be followed by a whole marker element after a `repositories` element
+    let els := splitOn '/' path
+    let repoPf : List String := match (it "repo").dropPrefix? "ok:" with
+      | some r =>
+        match str? r.toString with
+        | some rs =>
+          let ok := (List.range els.length).any fun i =>
+            els.getD i [] == sRepositories && (List.range (els.length + 1)).any fun j =>
+              decide (i + 1 < j) && joinSlash ((els.take j).drop (i + 1)) == rs.toList && isMarker (els.getD j [])
+          if ok then [] else [s!"side=impl key=getrepo-accepts-non-layout path {t}: GetRepo gave {rs}, no repositories/<that>/<marker> in the path"]
+        | none => []
+      | none => []
+    let br := if (kv? extra "kind").isSome then "built." ++ (kv? extra "kind").getD "" else match parsePath path with
       | .ok (ty, st) => "parse." ++ ptypeTok ty ++ "." ++ S st
       | .noMatch => "parse.err"
       | .unsupported => "parse.unsupported"
-    pure ((), { obs := obs, branch := br, propfails := pf.take 3 })
+    pure ((), { obs := obs, branch := br, propfails := pf.take 3 ++ layoutPf ++ repoPf })
   | _ => none
 
 def machine : Machine := { σ := Unit, name := "rp", init := fun _ => some (), step := step }
